@@ -50,6 +50,14 @@ def schema_units(run, with_big=True):
         shapes.mk_struct("Inner", [("q", 3, ("u", 3)), ("p", 1, ("i", 6))]),
         shapes.mk_struct("OrdC", [("n", 5, ("struct", "Inner")), ("m", 2, ("arr", ("struct", "Inner"), 2)), ("l", 9, ("u", 2))]),
         shapes.mk_struct("Flag", [("a", 0, ("u", 3)), ("o", 1, ("opt", ("u", 5))), ("p", 2, ("opt", ("i", 2))), ("z", 3, ("u", 1))]),
+        # two fields of one struct sharing a field id (the front end and the general checks accept that): both
+        # travel, in declaration order among equals
+        shapes.mk_struct("DupId", [("a", 0, ("u", 8)), ("b", 1, ("u", 16)), ("c", 1, ("u", 32))]),
+        shapes.mk_struct("DupId2", [("x", 4, ("i", 5)), ("y", 4, ("str",)), ("z", 2, ("u", 3)), ("w", 4, ("opt", ("u", 7)))]),
+        shapes.mk_struct("DupIn", [("n", 0, ("struct", "DupId")), ("m", 0, ("arr", ("struct", "DupId2"), 2))]),
+        # fixed arrays longer than 256 elements (beyond CPython's small-int cache)
+        shapes.mk_struct("Arr257", [("a", 0, ("u", 3)), ("d", 1, ("arr", ("u", 1), 257)), ("z", 2, ("i", 4))]),
+        shapes.mk_struct("Arr300", [("d", 0, ("arr", ("i", 5), 300)), ("e", 1, ("arr", ("arr", ("u", 2), 260), 2))]),
     ]
     units.append(("special", special, run.pick(8, 40), {}))
     if with_big:
